@@ -65,6 +65,15 @@ echo "$code" > "$LOG/exit-$n"
 exit "$code"
 `
 
+// c01WriteGate creates a gate file a hook process polls for and then reads: the content must be there
+// the moment the name exists (os.WriteFile creates the file empty first; a hook that read the empty
+// file exited with a status the harness did not ask for).
+func c01WriteGate(path, content string) {
+	tmp := filepath.Join(filepath.Dir(path), ".gate-"+filepath.Base(path))
+	_ = os.WriteFile(tmp, []byte(content), 0o644)
+	_ = os.Rename(tmp, path)
+}
+
 func c01OpObj(fc *fake.Cluster, ns string, e c01Ev) error {
 	gvr := schema.GroupVersionResource{Version: "v1", Resource: "configmaps"}
 	name := fmt.Sprintf("o%d", e.id)
@@ -248,7 +257,7 @@ func c01OpRun(c *Case, rng *Rng, cfg c01OpCfg, initial, duringSync [][]c01Ev, af
 		op.Stop()
 		// let a blocked hook process go
 		for n := 1; n <= cfg.failSync+3; n++ {
-			_ = os.WriteFile(filepath.Join(logDir, fmt.Sprintf("go-%d", n)), []byte("0"), 0o644)
+			c01WriteGate(filepath.Join(logDir, fmt.Sprintf("go-%d", n)), "0")
 		}
 		time.Sleep(20 * time.Millisecond)
 	}()
@@ -278,7 +287,7 @@ func c01OpRun(c *Case, rng *Rng, cfg c01OpCfg, initial, duringSync [][]c01Ev, af
 		if n <= cfg.failSync {
 			code = "1"
 		}
-		_ = os.WriteFile(filepath.Join(logDir, fmt.Sprintf("go-%d", n)), []byte(code), 0o644)
+		c01WriteGate(filepath.Join(logDir, fmt.Sprintf("go-%d", n)), code)
 	}
 	if !apply(after) {
 		return
